@@ -23,7 +23,7 @@ def alphabet():
     return A
 
 
-def compare_run(words, data, accu, steps, light=False):
+def compare_run(words, data, accu, steps, light=False, drive="step"):
     """Step the real simulation and the reference together. Returns (ref, [(field, detail)])."""
     sim = toy.make_toy(words, data, accu)
     ref = ToyRef(words, data, accu)
@@ -39,7 +39,16 @@ def compare_run(words, data, accu, steps, light=False):
         if d_ref:
             break
         try:
-            r = sim.step()
+            if drive == "step":
+                r = sim.step()
+            elif drive == "single":
+                sim.single_step()
+                sim.single_step()
+                r = not sim.is_done()
+            else:
+                sim.first_cycle_step()
+                sim.second_cycle_step()
+                r = not sim.is_done()
         except Exception as e:  # noqa
             bad.append(("exception", f"step {n + 1}: {type(e).__name__}: {e}"))
             break
@@ -76,7 +85,7 @@ def case_of(words, data, accu, steps):
 
 def replay(case):
     data = {int(k): v for k, v in case["data"].items()}
-    _r, bad = compare_run(case["words"], data, case["accu"], case["steps"], case.get("light", False))
+    _r, bad = compare_run(case["words"], data, case["accu"], case["steps"], case.get("light", False), case.get("drive", "step"))
     return [(dict(oracle="toy-reference", field=f), f"[{'; '.join(text(w) for w in case['words'][:8])}] accu={case['accu']}: {d}") for f, d in bad]
 
 
@@ -116,17 +125,20 @@ def prog_shard(shard):
         idx = tuple(firsts) + tail
         words = [A[i] for i in idx]
         for accu in (0, 1):
-            ref, bad = compare_run(words, {4095: 0x2001, 2: words[2] if len(words) > 2 else 0x9000}, accu, steps)
-            p.evaluations += 1
-            if ref.events:
-                p.nontrivial += 1
-                for e in ref.events:
-                    p.counters[e] += 1
-            if not ref.done():
-                p.counters["horizon"] += 1
-            for f, d in bad:
-                p.violation(dict(oracle="toy-reference", field=f), case_of(words, {4095: 0x2001, 2: words[2] if len(words) > 2 else 0x9000}, accu, steps),
-                            f"[{'; '.join(text(w) for w in words)}] accu={accu}: {d}", size=(length, idx, accu))
+            # every instruction counts once and costs two cycles however it is driven: whole steps, single cycles, explicit halves
+            for drive in (("step", "single", "halves") if length <= 2 else (("step", "single", "halves")[(sum(idx) + accu) % 3],)):
+                ref, bad = compare_run(words, {4095: 0x2001, 2: words[2] if len(words) > 2 else 0x9000}, accu, steps, drive=drive)
+                p.evaluations += 1
+                p.counters["driven-by-" + drive] += 1
+                if ref.events:
+                    p.nontrivial += 1
+                    for e in ref.events:
+                        p.counters[e] += 1
+                if not ref.done():
+                    p.counters["horizon"] += 1
+                for f, d in bad:
+                    p.violation(dict(oracle="toy-reference", field=f), dict(case_of(words, {4095: 0x2001, 2: words[2] if len(words) > 2 else 0x9000}, accu, steps), drive=drive),
+                                f"[{'; '.join(text(w) for w in words)}] accu={accu} driven by {drive}: {d}", size=(length, idx, accu))
     return p
 
 
@@ -148,7 +160,7 @@ def wrap_shard(shard):
 def run(ctx):
     ctx.rule = ("(a) every 16-bit word as the first instruction x accu in {0,1,0x7FFF,0x8000,0xFFFF} x operand cell in {0,1,0xFFFF} x program length {1,2}, one "
                 "whole step (incl. words addressing themselves, the next instruction and 4095; opcodes 13-15 placed directly in memory); (b) every program up "
-                "to a length bound over a 40-word alphabet (each opcode 0..15 x address in {0,1,2,4095}) from accu in {0,1}, stepped to a horizon; (c) a "
+                "to a length bound over a 40-word alphabet (each opcode 0..15 x address in {0,1,2,4095}) from accu in {0,1}, driven by whole steps, by single cycles and by explicit half cycles, to a horizon; (c) a "
                 "4096-word program run across the 4095 -> 0 wrap. After every step accu, pc, instruction register, the whole memory, cycles == 2 x "
                 "instructions, instruction and branch counts and step()'s return value are compared with the reference machine. Non-trivial = the reference "
                 "run changes accu or memory, takes a branch, modifies the program or wraps.")
@@ -173,4 +185,4 @@ def run(ctx):
     t0 = time.time()
     part = pmap(wrap_shard, [0x2000, 0x9000, 0x2FFF, 0x0FFF, 0x2005, 0x1FFF])
     ctx.space("pc-wrap-4096-words", part, t0)
-    ctx.require("self-modify", "taken", "branch-out", "pc-wrap", "horizon")
+    ctx.require("self-modify", "taken", "branch-out", "pc-wrap", "horizon", "driven-by-single", "driven-by-halves")
